@@ -19,7 +19,7 @@ def w9_calls(rnd, tier):
     ME = MT.ME
     calls = []
     n = 40 if tier == 'quick' else 400
-    for (a, b) in MT.boundary_ranges(rnd, n):
+    for (a, b) in MT.boundary_ranges(rnd, n, include_big=False):
         v = rnd.choice(['Integer', 'PositiveInteger', 'NegativeInteger', 'UnsignedInteger'])
         kw = {'is_extensible': rnd.random() < 0.3}
         if v == 'Integer':
